@@ -444,10 +444,10 @@ def vacuity(merged, tier):
     def fr(part, cls):
         return merged[part]["classes"].get(cls, 0) / max(1, merged[part]["evaluations"])
 
-    for part, cls, lim in (("extends", "err", 0.1), ("extends", "depth4", 0.05), ("expand", "range", 0.4), ("expand", "offset_range", 0.2),
-                           ("expand", "range_or_count_of_two", 0.2), ("expand", "extends", 0.3), ("expand", "contradiction_refused", 0.02),
-                           ("random", "expon", 0.08), ("random", "bad", 0.08), ("classes", "duplicate_refused", 0.2), ("legacy", "legacy_rate", 0.15),
-                           ("legacy", "legacy_cap", 0.15)):
+    for part, cls, lim in (("extends", "err", 0.04), ("extends", "depth4", 0.02), ("expand", "range", 0.16), ("expand", "offset_range", 0.08),
+                           ("expand", "range_or_count_of_two", 0.08), ("expand", "extends", 0.12), ("expand", "contradiction_refused", 0.008),
+                           ("random", "expon", 0.032), ("random", "bad", 0.032), ("classes", "duplicate_refused", 0.08), ("legacy", "legacy_rate", 0.06),
+                           ("legacy", "legacy_cap", 0.06)):
         if fr(part, cls) < lim:
             return f"{part}: class {cls} below {lim:.0%}"
     return None
